@@ -23,10 +23,11 @@ SIG_ARRFREE = "oom:arr-insert-grow-failure-frees-callers-value"
 SIG_RETVAL = "oom:fnc-setretval-null-value"
 SIG_GLOB = "oom:uglob-unwind"
 SIG_XARGV = "oom:xargv-index-leak"
+SIG_UNPACK = "oom:unpack-setrefval-leak"
 SIG_INCPST = "oom:incpst-assign-failure-keeps-values"
 # functions whose unwind table does not pass the law on the unchanged tree because of a defect (-> signature)
 WIDE_DEFECT_SIGS = {"gem-glob.c:hawk_gem_uglob": SIG_GLOB, "gem-glob.c:hawk_gem_bglob": SIG_GLOB, "run.c:eval_incpst": SIG_INCPST,
-                    "parse.c:parse_primary_xarg": SIG_XARGV}
+                    "parse.c:parse_primary_xarg": SIG_XARGV, "mod-sys.c:unpack_data": SIG_UNPACK}
 
 
 def load_extractor():
@@ -49,10 +50,33 @@ def translate_wide(ctx):
     """every function of lib/*.c with two or more acquisition sites -> Gen/UnwindWide.lean; returns (summary, problems)
     problems: [(text, sig|None)] - a function that the baseline (extract/unwind_wide.expected) lists as established and that
     no longer translates or no longer passes the law, or a new law violation that the baseline does not know"""
-    uw = load_wide()
-    est, notest, unh, nfun = uw.scan(C.REPO)
-    C.write_if_changed(os.path.join(C.LEAN, "HawkModel", "Gen", "UnwindWide.lean"), uw.emit(est, notest, unh))
-    summ = uw.summary(est, notest, unh, nfun)
+    # the scan (gcc -E + parsing of ~75 files) is a pure function of the translator and of lib/*.[ch]: cached by content
+    import hashlib, json, glob
+    h = hashlib.sha1()
+    for f in [os.path.join(C.VERIF, "extract", "unwind.py"), os.path.join(C.VERIF, "extract", "unwind_wide.py")] + \
+            sorted(glob.glob(os.path.join(C.REPO, "lib", "*.[ch]"))):
+        h.update(os.path.basename(f).encode()); h.update(open(f, "rb").read())
+    cfile = os.path.join(C.CACHE, "c10wide_%s.json" % h.hexdigest()[:20])
+    cached = None
+    try:
+        cached = json.load(open(cfile))
+    except (OSError, ValueError):
+        pass
+    if cached:
+        lean_text, summ = cached["lean"], cached["summary"]
+    else:
+        uw = load_wide()
+        est, notest, unh, nfun = uw.scan(C.REPO)
+        lean_text = uw.emit(est, notest, unh)
+        summ = uw.summary(est, notest, unh, nfun)
+        try:
+            os.makedirs(C.CACHE, exist_ok=True)
+            with open(cfile + ".tmp%d" % os.getpid(), "w") as f:
+                json.dump(dict(lean=lean_text, summary=summ), f)
+            os.replace(cfile + ".tmp%d" % os.getpid(), cfile)
+        except OSError:
+            pass
+    C.write_if_changed(os.path.join(C.LEAN, "HawkModel", "Gen", "UnwindWide.lean"), lean_text)
     probs = []
     def readlist(fn):
         try:
@@ -75,6 +99,10 @@ def translate_wide(ctx):
         if d["fn"] not in known_bad and (exp is None or d["fn"] not in exp):
             probs.append(("%s: the extracted unwind table violates the law: %s" % (d["fn"], d["why"]), WIDE_DEFECT_SIGS.get(d["fn"])))
     return summ, probs
+
+
+API_CASE_FUNCTIONS = {"hawk_gem_uglob", "hawk_gem_bglob", "hawk_gem_buildrex", "hawk_arr_update", "hawk_rtx_callwithbcstrarr", "hawk_rtx_callwithucstrarr",
+                      "hawk_rtx_callwithooucstrarr", "hawk_rtx_callwithoobcstrarr"}
 
 
 def wide_site_coverage(summ, lines):
@@ -104,7 +132,11 @@ def wide_site_coverage(summ, lines):
             if got is not None and (alt & got):
                 reached += 1
         (fn_reached if got is not None else fn_unreached).append(fn)
-    return dict(steps_named=total, steps_reached=reached, functions=len(fn_reached) + len(fn_unreached), functions_reached=len(fn_reached),
+    # functions driven by a direct API case of harness/oom_api.h (every request of the case is refused in turn; the case lines
+    # carry no call chain, so this is per function, not per step)
+    by_api = sorted(fn for fn in fn_unreached if fn.split(":")[1] in API_CASE_FUNCTIONS)
+    fn_unreached = [fn for fn in fn_unreached if fn not in by_api]
+    return dict(functions_reached_by_api_case_only=by_api, steps_named=total, steps_reached=reached, functions=len(fn_reached) + len(fn_unreached) + len(by_api), functions_reached=len(fn_reached) + len(by_api),
                 functions_never_failed_in=sorted(fn_unreached))
 
 
@@ -305,7 +337,7 @@ def judge(d):
     if badfree:
         return ("badfree", None, "a pointer that is not an outstanding block was freed (%d times)" % d["badfree"])
     if leak:
-        return ("leak", SIG_XARGV if site.split("<")[0] == "parse_primary_xarg" else None, "%d block(s) still allocated after hawk_close (%s)" % (d["live"], d.get("leak", "")))
+        return ("leak", SIG_XARGV if site.split("<")[0] == "parse_primary_xarg" else SIG_UNPACK if "unpack_data" in site.split("<") else None, "%d block(s) still allocated after hawk_close (%s)" % (d["live"], d.get("leak", "")))
     if oc in ("ENOMEM", "OK_SAME", "NOHIT", "SOFTERR"):
         return None
     if oc == "OK_DIFF" or oc == "NOHIT_DIFF":
@@ -786,7 +818,11 @@ def run(ctx):
     wds = {}
     for name in progs:
         wds[name] = make_workdir(ctx, cdir, name)
-        ref, msg = run_ref(exe, wds[name], venv(name))
+    # the unconstrained runs are independent of each other: eight at a time
+    with concurrent.futures.ThreadPoolExecutor(max_workers=8) as ex:
+        ref_results = dict(zip(progs, ex.map(lambda nm: run_ref(exe, wds[nm], venv(nm)), progs)))
+    for name in progs:
+        ref, msg = ref_results[name]
         if not ref_clean(ref, open(os.path.join(cdir, name + ".hawk")).read()):
             ctx.problem("impl", "unconstrained run of %s is not clean (memory error, leak, foreign free or unexpected failure): %s" % (name, msg or ref["raw"]),
                         replay_text("lifecycle", name, "none", -1, cdir, open(os.path.join(cdir, name + ".hawk")).read()), found_input=True)
